@@ -318,10 +318,9 @@ def extract(repo=None):
         'operatorNeg': _deleg(O['__neg__']),
         'operatorTruediv': _deleg(O['__truediv__']),
         'operatorMatmul': _deleg(O['__matmul__']),
+        'operatorRMatmul': _deleg(O['__rmatmul__']),
         'functionalSub': _deleg(F['__sub__']),
     }
-    if _deleg(O['__rmatmul__']) != 'Deleg.selfRMulOther':
-        raise ExtractionError('__rmatmul__ changed')
     if _aliases(opc['Operator']).get('__div__') != '__truediv__':
         raise ExtractionError('__div__ alias changed')
     radd_alias = _aliases(fnc['Functional']).get('__radd__') == '__add__'
@@ -348,7 +347,7 @@ def extract(repo=None):
               'functionalMul', 'functionalRMul']:
         lines.append('  {0} := {0}'.format(k))
     for k in ['operatorRAdd', 'operatorSub', 'operatorRSub', 'operatorNeg', 'operatorTruediv',
-              'operatorMatmul', 'functionalSub']:
+              'operatorMatmul', 'operatorRMatmul', 'functionalSub']:
         lines.append('  {} := {}'.format(k, delegs[k]))
     lines += ['  functionalRAddIsAdd := ' + b(radd_alias), '  powIsCompLoop := ' + b(pow_ok),
               '  operatorPriorityHigher := ' + b(prio), '  scalarMergeIsProduct := ' + b(merge),
@@ -357,9 +356,20 @@ def extract(repo=None):
 
 
 def regenerate(repo=None):
-    lean = extract(repo)
-    return core.write_if_changed(
-        os.path.join(core.LEAN, 'OdlModel', 'Gen', 'AlgebraDispatch.lean'), lean)
+    path = os.path.join(core.LEAN, 'OdlModel', 'Gen', 'AlgebraDispatch.lean')
+    try:
+        lean = extract(repo)
+    except Exception:
+        # do not leave tables extracted from some OTHER tree (an earlier run with a different
+        # ODL_REPO) behind: fall back to the committed file, then report the failure
+        import subprocess
+        p = subprocess.run(['git', '-C', core.VERIF, 'show',
+                            'HEAD:lean/OdlModel/Gen/AlgebraDispatch.lean'],
+                           stdout=subprocess.PIPE, stderr=subprocess.DEVNULL, text=True)
+        if p.returncode == 0 and p.stdout:
+            core.write_if_changed(path, p.stdout)
+        raise
+    return core.write_if_changed(path, lean)
 
 
 if __name__ == '__main__':
